@@ -2,6 +2,7 @@ package rules
 
 import (
 	"fmt"
+	"go/token"
 	"go/types"
 	"strings"
 
@@ -50,12 +51,16 @@ func ordinalKey(counts map[string]int, base string) string {
 }
 
 func runC09(c *core.Ctx) {
+	defer func() {
+		c.Share(map[string]string{"R3.1": "R9.7"}, runC03) // get-and-touch under the shared lock races the back-fill of a get: L1 keeps the old expiry
+	}()
 	c.Rule("R9.1", "every Set/Touch/GAT request an in-scope orchestrator hands to L1 or L2 carries the Exptime of the client's request (or, in the get back-fill, the Exptime of the gete response received from L2); an unset Exptime means 'never expires'", 30)
 	c.Rule("R9.2", "in the backend handlers the exptime argument of every set/add/replace/touch/gat(q) write comes from the Exptime of the same request object the key comes from; request structs rebuilt inside a handler take Exptime from the command (one reasoned exception: chunked append/prepend re-stores with the metadata's expiry)", 19)
 	c.Rule("R9.3", "the request serialisers store exptime at the extras offset of the memcached binary protocol: set/add/replace extras = flags[0:4] exptime[4:8]; touch/gat extras = exptime[0:4]", 2)
 	c.Rule("R9.4", "in the chunking backend every command that changes the TTL of chunks also stores a metadata record whose Exptime derives from exptime(cmd.Exptime): metadata.Exptime is a TTL source for later append/prepend", 2)
 	c.Rule("R9.5", "gete keeps its TTL end to end: the direct handler reads the expiry extras and returns them; the batching handler submits a gete request; the pool reader fills Exptime from the reply", 3)
 
+	c.Rule("R9.6", "the chunking backend's expiry computation follows memcached: 0 means never, a TTL strictly greater than 30 days (2592000 s) is an absolute time and is stored as it is, anything else is now + TTL", 1)
 	pv := &ssax.Prov{}
 	// ---- R9.1
 	for _, ctor := range inScopeCtors {
@@ -227,6 +232,10 @@ func runC09(c *core.Ctx) {
 		c.Check(len(problems) == 0, "R9.3", key, c.P.Pos(ser.Pos()), "extras layout in "+ser.Name()+" matches the spec", strings.Join(problems, "; "))
 	}
 
+	// ---- R9.6 relative / absolute boundary
+	runR96(c)
+	// ---- R9.8 the TTL reaches the metadata entry before success is reported
+	runR98(c)
 	// ---- R9.4 chunked metadata expiry
 	runR94(c)
 	// ---- R9.5 gete
@@ -608,4 +617,239 @@ func requestTypeValue(c *core.Ctx, name string) (int64, bool) {
 		return 0, false
 	}
 	return ssax.ConstInt(k.Value)
+}
+
+func runR96(c *core.Ctx) {
+	var fn *ssa.Function
+	for _, f := range pkgFuncs(c, "handlers/memcached/chunked") {
+		if f.Parent() == nil && f.Signature.Recv() == nil && sigIs(f, []string{"uint32"}, []string{"uint32", "bool"}) {
+			fn = f
+		}
+	}
+	key := "chunked#expiry-boundary"
+	if fn == nil {
+		c.Undecided("R9.6", key, "-", "no func(uint32) (uint32, bool) in package chunked")
+		return
+	}
+	ttl := fn.Params[0]
+	var bad []string
+	sawZero, sawBoundary := false, false
+	for _, r := range ssax.Returns(fn) {
+		conds := ssax.DomConds(r.Block())
+		zero, abs := false, false
+		for _, ec := range conds {
+			op, k, ok := normCmp(ec, ttl)
+			if !ok {
+				continue
+			}
+			switch {
+			case op == token.EQL && k == 0:
+				zero = true
+			case op == token.GTR || op == token.GEQ:
+				if op == token.GEQ {
+					k-- // ttl >= k  ==  ttl > k-1
+				}
+				abs = true
+				sawBoundary = true
+				if k != 60*60*24*30 {
+					bad = append(bad, fmt.Sprintf("TTLs above %d s are taken as absolute times; memcached's boundary is 2592000 s (30 days), itself still relative", k))
+				}
+			}
+		}
+		res := ssax.Unwrap(r.Results[0])
+		switch {
+		case zero:
+			sawZero = true
+			if k, ok := ssax.ConstInt(res); !ok || k != 0 {
+				bad = append(bad, "TTL 0 does not map to expiry 0 (never)")
+			}
+		case abs:
+			if res != ssa.Value(ttl) {
+				bad = append(bad, "an absolute TTL is not stored as it is")
+			}
+		default:
+			bo, ok := res.(*ssa.BinOp)
+			if !ok || bo.Op != token.ADD || !(ssax.Unwrap(bo.X) == ssa.Value(ttl) || ssax.Unwrap(bo.Y) == ssa.Value(ttl)) {
+				bad = append(bad, "a relative TTL is not stored as now + TTL")
+			}
+		}
+	}
+	if !sawZero {
+		bad = append(bad, "TTL 0 is not treated separately")
+	}
+	if !sawBoundary {
+		bad = append(bad, "no absolute/relative boundary")
+	}
+	c.Check(len(bad) == 0, "R9.6", key, c.P.Pos(fn.Pos()), "0 => never; > 2592000 => absolute, stored as is; otherwise now + TTL", strings.Join(uniq(bad), "; "))
+}
+
+// normCmp normalises an edge condition comparing v with a constant to "v op k" (operands swapped and the edge's
+// polarity applied).
+func normCmp(ec ssax.EdgeCond, v ssa.Value) (token.Token, int64, bool) {
+	bo, ok := ec.Cond.(*ssa.BinOp)
+	if !ok {
+		return 0, 0, false
+	}
+	op := bo.Op
+	var k int64
+	switch {
+	case ssax.Unwrap(bo.X) == v:
+		c, isC := ssax.ConstInt(bo.Y)
+		if !isC {
+			return 0, 0, false
+		}
+		k = c
+	case ssax.Unwrap(bo.Y) == v:
+		c, isC := ssax.ConstInt(bo.X)
+		if !isC {
+			return 0, 0, false
+		}
+		k = c
+		switch op {
+		case token.LSS:
+			op = token.GTR
+		case token.GTR:
+			op = token.LSS
+		case token.LEQ:
+			op = token.GEQ
+		case token.GEQ:
+			op = token.LEQ
+		}
+	default:
+		return 0, 0, false
+	}
+	if !ec.True {
+		switch op {
+		case token.EQL:
+			op = token.NEQ
+		case token.NEQ:
+			op = token.EQL
+		case token.LSS:
+			op = token.GEQ
+		case token.GEQ:
+			op = token.LSS
+		case token.GTR:
+			op = token.LEQ
+		case token.LEQ:
+			op = token.GTR
+		}
+	}
+	return op, k, true
+}
+
+// runR98: in the chunking backend a command that sends its TTL to the backend at all (touch, get-and-touch, the set
+// family) reports success only after a request carrying that TTL was written for the key's metadata entry - the
+// entry every later read of the key starts from. A success path that skips it (an early return for an item without
+// chunks, for an already expired TTL, ...) leaves the old expiry in force.
+func runR98(c *core.Ctx) {
+	c.Rule("R9.8", "in the chunking backend every success return of a command that sends its TTL to the backend lies behind a request for the key's metadata entry that carries this TTL", 3)
+	prods := keyProducers(c)
+	isMetaProducer := func(f *ssa.Function) bool {
+		kp, ok := prods[f]
+		return ok && kp.via != nil && kp.via.Signature.Params().Len() == 1
+	}
+	metaKeyed := func(v ssa.Value) bool {
+		ok := false
+		for _, d := range ssax.Defs(v) {
+			switch x := d.(type) {
+			case *ssa.Call:
+				ok = ok || isMetaProducer(x.Call.StaticCallee())
+			case *ssa.Extract:
+				if call, isCall := x.Tuple.(*ssa.Call); isCall && x.Index == 0 {
+					ok = ok || isMetaProducer(call.Call.StaticCallee())
+				}
+			}
+		}
+		return ok
+	}
+	pv := &ssax.Prov{}
+	fromExptime := func(fn *ssa.Function, v ssa.Value) bool {
+		srcs := pv.Sources(v)
+		return len(srcs) > 0 && ssax.All(srcs, func(s ssax.Src) bool { return s.Kind == "param" && s.V.Parent() == fn && s.PathIs("Exptime") })
+	}
+	fns := pkgFuncs(c, relChunked)
+	// helpers: func(..., ttl uint32, ...) writing a request for the metadata key with that parameter as its TTL
+	helperParam := map[*ssa.Function]int{}
+	for _, fn := range fns {
+		ssax.Instrs(fn, func(ins ssa.Instruction) {
+			cc := ssax.CallOf(ins)
+			if cc == nil || !strings.HasPrefix(ssax.CalleeName(cc), pBinprot+".Write") || len(cc.Args) < 3 || !metaKeyed(cc.Args[1]) {
+				return
+			}
+			for _, a := range cc.Args[2:] {
+				if p, ok := ssax.Unwrap(a).(*ssa.Parameter); ok && p.Parent() == fn && types.TypeString(p.Type(), nil) == "uint32" {
+					helperParam[fn] = paramIndex(p)
+				}
+			}
+		})
+	}
+	for _, fn := range fns {
+		if fn.Parent() != nil {
+			continue
+		}
+		var ttlWrites, metaWrites []ssa.Instruction
+		ssax.Instrs(fn, func(ins ssa.Instruction) {
+			cc := ssax.CallOf(ins)
+			if cc == nil {
+				return
+			}
+			if strings.HasPrefix(ssax.CalleeName(cc), pBinprot+".Write") && len(cc.Args) >= 3 {
+				carries := false
+				for _, a := range cc.Args[2:] {
+					if types.TypeString(a.Type(), nil) == "uint32" && fromExptime(fn, a) {
+						carries = true
+					}
+				}
+				if carries {
+					ttlWrites = append(ttlWrites, ins)
+					if metaKeyed(cc.Args[1]) {
+						metaWrites = append(metaWrites, ins)
+					}
+				}
+				return
+			}
+			if callee := cc.StaticCallee(); callee != nil {
+				if j, ok := helperParam[callee]; ok && j < len(cc.Args) && fromExptime(fn, cc.Args[j]) {
+					ttlWrites = append(ttlWrites, ins)
+					metaWrites = append(metaWrites, ins)
+				}
+			}
+		})
+		if len(ttlWrites) == 0 {
+			continue
+		}
+		key := "(chunked)." + fn.Name() + "#ttl-reaches-metadata"
+		isMeta := map[ssa.Instruction]bool{}
+		for _, w := range metaWrites {
+			isMeta[w] = true
+		}
+		var bad []string
+		target := func(ins ssa.Instruction) bool {
+			ret, ok := ins.(*ssa.Return)
+			if !ok || len(ret.Results) == 0 {
+				return false
+			}
+			last := ret.Results[len(ret.Results)-1]
+			if types.TypeString(last.Type(), nil) != "error" {
+				return false
+			}
+			for _, d := range ssax.Defs(last) {
+				b := storeBlockOf(last, d)
+				if b == nil {
+					b = ret.Block()
+				}
+				if !definitelyNonNil(d, b) {
+					return true
+				}
+			}
+			return false
+		}
+		hit, trail := (ssax.Reach{Target: target, Avoid: func(ins ssa.Instruction) bool { return isMeta[ins] }}).FromBlock(fn.Blocks[0])
+		if hit != nil {
+			bad = append(bad, fmt.Sprintf("the command can report success at %s without having written a request carrying its TTL for the metadata entry", c.P.Pos(hit.Pos())))
+			c.Violate("R9.8", key, c.P.Pos(hit.Pos()), bad[0], ssax.BlockTrail(c.P.Fset, trail)...)
+			continue
+		}
+		c.OK("R9.8", key, c.P.Pos(fn.Pos()), fmt.Sprintf("%d request(s) carry the TTL for the metadata entry; every success return lies behind one", len(metaWrites)))
+	}
 }
